@@ -866,3 +866,45 @@ Example hash_material_instance :
   hash_material (mkDef [99] [[97]] [[98]] []) <> hash_material (mkDef [99] [[97]] [] [[98]]) /\
   hash_material (mkDef [99] [[97]; [98]] [] []) <> hash_material (mkDef [99] [[98]; [97]] [] []).
 Proof. split; discriminate. Qed.
+
+(* ------------------------------------------------------------------ phony aliases as inputs *)
+
+(* A phony command whose own name is not a file: its value carries the `missing' record, is never valid (the
+   rule is re-evaluated on every build) and is completed with forceChange = true ... *)
+Lemma phony_alias_never_valid x c prior ins :
+  x_cancelled x = false -> c_phony c = true ->
+  decide x c prior ins [missing_info] = DPhony true /\
+  produced c [missing_info] (decide x c prior ins [missing_info]) = Some (command_result c [missing_info]) /\
+  command_valid c (command_result c [missing_info]) [missing_info] = Some false.
+Proof.
+  intros XC P. unfold decide, decide_with. rewrite XC, P. split; [reflexivity|]. split; [reflexivity|].
+  unfold command_valid, command_result. rewrite N.eqb_refl. cbn [negb]. rewrite andb_false_r. reflexivity.
+Qed.
+
+(* ... and a command that receives such a value is executed whenever its task exists: the null-build clause
+   fails for every command with a phony alias among its explicit / implicit inputs *)
+Lemma phony_alias_dependent_runs x c prior ins outs k h :
+  x_cancelled x = false -> c_phony c = false -> x_simulate x = false ->
+  existsb is_bad (requested ins) = false ->
+  In (k, NSuccessfulCommand h [missing_info]) ins -> is_order_only k = false ->
+  decide x c prior ins outs = DRun.
+Proof.
+  intros XC P S B I O. rewrite decide_eq, XC, P, S, B.
+  assert (SC : shortcut x c prior ins outs = false).
+  { unfold shortcut. pose proof (in_requested k _ ins I O) as IR.
+    destruct (forallb stamped (requested ins)) eqn:F; [|rewrite andb_false_r; reflexivity].
+    rewrite forallb_forall in F. specialize (F _ IR). discriminate. }
+  rewrite SC. reflexivity.
+Qed.
+
+Lemma phony_alias_dependent_reruns_refuted :
+  exists x c ins outs,
+    x_cancelled x = false /\ x_simulate x = false /\ c_phony c = false /\ c_has_deps c = false /\
+    forallb (fun f => negb (is_missing f)) outs = true /\
+    existsb is_bad (requested ins) = false /\
+    decide x c (Some (command_result c outs)) ins outs = DRun.
+Proof.
+  exists (mkCtx false false false), (mkCmd 7 false false false false),
+         [(CExplicit, NExistingInput (fi_at 2 1 0)); (CImplicit, NSuccessfulCommand 9 [missing_info])], [fi_at 3 5 0].
+  vm_compute. repeat split; auto.
+Qed.
